@@ -520,7 +520,17 @@ def multi_client_step(prog: Program, ports_cfg, stats, n_clients: int = 3) -> Li
                                 findings.append(Finding('C04', f'out-event {ev.name} argument {i} arrives changed', ctx))
                 return None
 
-            explore.explore(scenario, stats)
+            def guarded(oracle, scenario=scenario, pre=pre, op=op, actor=actor):
+                try:
+                    return scenario(oracle)
+                except M.Dangling as exc:
+                    findings.append(Finding(
+                        'C04', f'the per-client handlers use an object of the registering call after it returned '
+                               f'({exc}): the client identifier is not captured by value',
+                        {'pre_holder': pre, 'op': op, 'actor': actor, 'clients': clients, 'dangling': True}))
+                    return None
+
+            explore.explore(guarded, stats)
     return findings
 
 
